@@ -202,9 +202,26 @@ theorem leave_enabled (s : Sys) (hw : Wf s) (t b : Nat) (susp : Bool) (hst : (s.
   · rename_i hc
     simp [step, hfr, hst, hm, hc]
 
-/-- one-level progress: while a task waits in a group exit, either the exit itself can move (an internal step of
-the loop: reap a finished member, deliver the pending cancellation, leave), or a member is still live -/
-theorem exit_progress (s : Sys) (hr : Reach s) (t b : Nat) (susp : Bool) (hst : (s.tasks t).status = .exitWait b susp) :
+/-- steps the event loop takes on its own: no action of the harness, no decision of user code beyond "the rest of
+the program is empty" -/
+def loopStep : Label → Bool
+  | .reap _ | .deliver _ | .silentEnd _ | .start _ | .resume _ _ _ | .bodyEnd _ _ _ | .left _ _ _ | .end_ _ _ => true
+  | _ => false
+
+/-- **The full progress statement**: in every reachable state in which a task waits in a group exit the loop can make
+a step, unless some task waits on a gate that has not been released and has not been asked to cancel. -/
+def exit_progress_statement : Prop :=
+  ∀ (s : Sys), Reach s → ∀ t b susp, (s.tasks t).status = .exitWait b susp →
+    (∃ l, loopStep l = true ∧ (step s l).isSome = true) ∨
+    ∃ c g, (s.tasks c).status = .awaiting g ∧ s.released g = false ∧ (s.tasks c).mustCancel = false
+
+/-- **C06.exit_progress_partial** (one level of waiting): while a task waits in a group exit, either the exit itself
+can move (reap a finished member, deliver the pending cancellation, leave), or a member is still live – and a live
+member outside a group exit of its own can move unless it waits on an unreleased gate (`member_progress`).  Missing for
+the full statement: a member that itself waits in a nested exit needs the argument applied again to *its* members;
+that this descent ends (the waits-for relation is acyclic, members being created after their group's owner) is not
+formalised. -/
+theorem exit_progress_partial (s : Sys) (hr : Reach s) (t b : Nat) (susp : Bool) (hst : (s.tasks t).status = .exitWait b susp) :
     (∃ l, (silent l = true ∨ l = .left t b (exitResult (s.groups b))) ∧ (step s l).isSome = true) ∨
     ∃ c ∈ (s.groups b).members, isLive (s.tasks c) = true := by
   have hw := hr.wf
